@@ -5,7 +5,8 @@
    the side condition 0 < cap (0 < Q) and are instantiated here with the generated values.
 
    Where the faithful model violates the statement the file carries the triple
-   [_full] (Definition) / [_refuted] (concrete witness) / the proved statement with the carve-out. *)
+   [_full] (Definition) / [_refuted] (concrete witness) / the proved statement with the carve-out
+   (isolation on unchained schemes, non-blocking Put). *)
 From Coq Require Import ZArith List Bool Lia.
 From DV Require Import Model.Cache Proofs.CacheProofs Model.CbStore Proofs.CbStoreProofs
   Gen.Consts Gen.AggWindow.
@@ -27,41 +28,47 @@ Proof. reflexivity. Qed.
 (* ================= (b) partial cache ================= *)
 
 (* structure, for EVERY list of append/flush operations (any indices, rounds, prevs), every cap:
-   unique round caches, none empty, and every cached (idx, id) has id in rcvd[idx] *)
+   unique round caches, none empty, and the ids recorded for a signer index (rcvd[idx], without
+   repetition) are exactly the round caches that hold a partial of that index *)
 Theorem C12_cache_wf : forall cap ops, wf (pc_run cap pc_init ops).
 Proof. exact reachable_wf. Qed.
 Print Assumptions C12_cache_wf.
 
-(* bounds as the design states them: per index at most cap round caches, |rcvd idx| <= 2cap+1,
-   at most cap x #indices round caches — for every operation list *)
-Definition C12_cache_bounded_full : Prop :=
-  forall cap ops, 0 < cap -> cache_bounds cap ops.
-
-(* refuted by the faithful model: getCache checks the cap only when it CREATES a round cache; an
-   index that joins round caches created by another index is never checked. Signers 1 and 2 both
-   sign 2cap+1 ids: index 2 ends in 2cap+1 round caches, and there are 2cap+1 > 2cap of them *)
-Definition two_signer_flood (n : nat) : list cop :=
-  flat_map (fun k => [CAppend 1 (5, [Z.of_nat k]); CAppend 2 (5, [Z.of_nat k])]) (seq 0 n).
-
-Theorem C12_cache_bounded_refuted : ~ C12_cache_bounded_full.
-Proof.
-  intro H.
-  destruct (H max_partials_per_node (two_signer_flood (Z.to_nat (2 * max_partials_per_node + 1)))
-              (proj1 C12_constants_positive)) as [H1 _].
-  specialize (H1 2). revert H1. vm_compute. intro Q; apply Q; reflexivity.
-Qed.
-Print Assumptions C12_cache_bounded_refuted.
-
-(* proved with the carve-out spelled out: no round cache is used by two signer indices (every
-   member floods with its own rounds / previous signatures). The bound on rcvd accounts for the
-   id that the eviction path appends twice: it is tight (Example below reaches 2cap+1). *)
-Theorem C12_cache_bounded : forall cap ops, 0 < cap -> ids_private ops -> cache_bounds cap ops.
-Proof. exact cache_bounded_private. Qed.
+(* bounds, for EVERY operation list (any number of signer indices, shared round caches, interleaved
+   flushes) and every cap > 0: each index is in at most cap round caches and has at most cap
+   recorded ids; at most cap x #indices round caches. getCache applies the per-signer check whenever
+   the signer gets a new entry, also in a round cache created by another index, and the evicted id
+   is recorded once (fixes of "shared round cache bypasses the cap" and of the duplicate id, see
+   known_findings.txt "fixed: property=C12"). *)
+Theorem C12_cache_bounded : forall cap ops, 0 < cap -> cache_bounds cap ops.
+Proof. exact cache_bounded. Qed.
 Print Assumptions C12_cache_bounded.
 
-Theorem C12_cache_bounded_here : forall ops, ids_private ops -> cache_bounds max_partials_per_node ops.
-Proof. intros ops H. apply cache_bounded_private; auto. reflexivity. Qed.
+Theorem C12_cache_bounded_here : forall ops, cache_bounds max_partials_per_node ops.
+Proof. intros ops. apply cache_bounded. reflexivity. Qed.
 Print Assumptions C12_cache_bounded_here.
+
+(* the eviction never meets a missing round cache (no "evicted round missing from cache" refusal) *)
+Theorem C12_append_never_misses : forall cap ops idx id,
+  snd (pc_append cap (pc_run cap pc_init ops) idx id) <> CErrEvictMissing.
+Proof. exact append_never_misses. Qed.
+Print Assumptions C12_append_never_misses.
+
+(* regression: the two floods that used to break the bounds. Two signers signing the same 2cap+1
+   ids (index 2 used to end in 2cap+1 round caches); one signer with 2cap+3 ids (rcvd used to reach
+   2cap+1 with stale ids and the signer was then refused for ever) *)
+Definition two_signer_flood (n : nat) : list cop :=
+  flat_map (fun k => [CAppend 1 (5, [Z.of_nat k]); CAppend 2 (5, [Z.of_nat k])]) (seq 0 n).
+Definition one_signer_flood (n : nat) : list cop :=
+  map (fun k => CAppend 1 (5, [Z.of_nat k])) (seq 0 n).
+Example C12_floods_repaired :
+  (let c := pc_run max_partials_per_node pc_init (two_signer_flood (Z.to_nat (2 * max_partials_per_node + 1))) in
+   Z.of_nat (live_count c 1) = max_partials_per_node /\ Z.of_nat (live_count c 2) = max_partials_per_node /\
+   Z.of_nat (length (rounds c)) = max_partials_per_node /\ Z.of_nat (length (rcvd_of c 2)) = max_partials_per_node) /\
+  (let c := pc_run max_partials_per_node pc_init (one_signer_flood (Z.to_nat (2 * max_partials_per_node + 3))) in
+   Z.of_nat (length (rcvd_of c 1)) = max_partials_per_node /\ Z.of_nat (length (rounds c)) = max_partials_per_node /\
+   snd (pc_step max_partials_per_node c (CAppend 1 (5, [7; 7]))) = COk).
+Proof. vm_compute. repeat split; reflexivity. Qed.
 
 (* store window: for every event list of the aggregator with non-decreasing stored rounds, every
    cached round r satisfies head < r <= head + limit + 1, so at most limit+1 distinct rounds *)
@@ -232,27 +239,6 @@ Print Assumptions C12_put_others_served.
    depend on it: instance of C12_put_partial (the release with rm = true is an ordinary event) *)
 
 (* ---------- non-vacuity ---------- *)
-(* the bound 2cap+1 on rcvd is reached, with cap round caches, by one signer and 2cap+3 ids; the
-   last two are refused ("evicted round missing from cache") *)
-Definition one_signer_flood (n : nat) : list cop :=
-  map (fun k => CAppend 1 (5, [Z.of_nat k])) (seq 0 n).
-Example C12_cache_bound_tight :
-  let ops := one_signer_flood (Z.to_nat (2 * max_partials_per_node + 3)) in
-  let c := pc_run max_partials_per_node pc_init ops in
-  Z.of_nat (length (rcvd_of c 1)) = 2 * max_partials_per_node + 1 /\
-  Z.of_nat (live_count c 1) = max_partials_per_node /\
-  Z.of_nat (length (rounds c)) = max_partials_per_node /\
-  snd (pc_step max_partials_per_node c (CAppend 1 (5, [7; 7]))) = CErrEvictMissing.
-Proof. vm_compute. repeat split; reflexivity. Qed.
-
-Example C12_private_nonvacuous :
-  ids_private (one_signer_flood 5 ++ [CFlush 5; CAppend 2 (6, [1])]).
-Proof.
-  intros i j id Hi Hj. simpl in Hi, Hj.
-  repeat (destruct Hi as [Hi|Hi]; [inversion Hi; subst|]); try destruct Hi;
-  repeat (destruct Hj as [Hj|Hj]; [inversion Hj; subst|]); try destruct Hj; try reflexivity; try discriminate.
-Qed.
-
 Example C12_window_nonvacuous :
   heads_mono 10 [APartial 1 (11, [1]); APartial 2 (14, [2]); APartial 2 (15, [2]); AAggregated 11 true; AStored 11; APartial 1 (15, [2])] /\
   let a := agg_run max_partials_per_node partial_cache_store_limit agg_window_upper_extra (mkAgg 10 pc_init)
@@ -302,3 +288,11 @@ Example C12_put_served_nonvacuous :
 Proof.
   split; [apply C12_put_others_served; [reflexivity | vm_compute; discriminate | discriminate] | vm_compute; reflexivity].
 Qed.
+
+(* The gRPC servers are created with a finite bound on concurrent streams per transport
+   (internal/net/listener.go, grpc.MaxConcurrentStreams): extracted on every run; a removed option
+   or a bound of 0 (= unlimited in grpc-go) is a T-break or fails this obligation. The callback
+   store's follower count per remote transport is bounded by it. *)
+Theorem C12_stream_cap : 0 < max_concurrent_streams <= 65536.
+Proof. unfold max_concurrent_streams. lia. Qed.
+Print Assumptions C12_stream_cap.
